@@ -146,8 +146,29 @@ def item_loop(rep):
     pre = (M.inst(OBJ, uni.const(cabc.Sequence)), M.len_(OBJ) >= 1, M.inst(SEEN, uni.const(frozenset)), 0 <= R)
     body = [st for st in node.body if not isinstance(st, ast.Assert) and not (isinstance(st, ast.Expr) and isinstance(st.value, ast.Constant))]
     env = {'obj': VObj(OBJ), 'hint_factory': VObj(FACT), 'conf': VObj(CONF), '__beartype_obj_ids_seen__': VObj(SEEN)}
-    outs = ex.exec_block(body, St(tuple(env.items()), pre))
     pr = discharge.Prover(uni.axioms())
+    # ---- a collection that is NOT a sequence (a set, a view, a user mapping inferred through its keys): the one item inspected by the shortcut /
+    #      the constant-time strategy is the FIRST ITERATED item, and the object is never subscripted (obj[k] of a mapping is a value, not an item)
+    ex_ns = Exec(uni, scope, call_model=cm, name='reiterable_items_nonseq'); ex_ns.fields_mode = True; ex_ns.local_lists = {'hints_item_list'}; ex_ns.subscript_hook = sub_hook
+    ex_ns.set_target(node); ex_ns.loop_contracts = {k: dict(name=f'items{k}', vars=['hints_item_list'], inv=lambda ex_, i, env_, B, s_: z3.BoolVal(True)) for k in range(len(ex_ns.loop_index))}
+    pre_ns = (M.inst(OBJ, uni.const(cabc.Collection)), z3.Not(M.inst(OBJ, uni.const(cabc.Sequence))), M.len_(OBJ) >= 1, M.inst(SEEN, uni.const(frozenset)), 0 <= R)
+    try: outs_ns = ex_ns.exec_block(body, St(tuple(env.items()), pre_ns))
+    except symx.Unsupported as e: rep.error(f'C20.reiterable_items (non-sequence): unsupported: {e}'); outs_ns = []
+    for ob in ex_ns.obls:
+        if ob.kind.startswith('loop') or ob.kind.startswith('inv') or 'invariant loop over a sequence' in (ob.where or ''): continue      # the whole-collection loops are the sequence lemma's business (below)
+        r = pr.prove(list(ob.pc), ob.goal); rep.add(f'C20.reiterable_items.nonsequence.{ob.kind}#{ob.name.rsplit(".", 1)[-1]}', r.status, time=r.time, backend=r.backend, where=ob.where, reason=r.reason)
+    k_ns = 0
+    for i, (kind, s_, v) in enumerate(outs_ns + [('raise', s2, v2) for s2, v2 in ex_ns.raised]):
+        subs = [e for e in s_.effects if e[0] in ('getitem_int', 'getitem_key') and e[1] is not None and e[1].eq(OBJ)]
+        if subs: rep.add(f'C20.reiterable_items.nonsequence.post.never_subscripted.path{i}', 'refuted', backend='structural', where=f'a collection that is not a sequence is subscripted ({subs[0][0]}): for a mapping that yields a VALUE, not one of the items the inferred hint describes')
+        if kind != 'return': continue
+        if [e for e in s_.events if e[0] in ('made_fixed', 'made_union')]: continue
+        infs = [e[1] for e in s_.events if e[0] == 'infer']; k_ns += 1
+        r = pr.prove(list(s_.pc), infs[0] == M.first(OBJ)) if len(infs) == 1 else None
+        rep.add(f'C20.reiterable_items.nonsequence.post.first_iterated_item.path{i}', r.status if r else 'refuted', time=r.time if r else 0, backend=r.backend if r else 'structural', reason=r.reason if r else '',
+                where='one-item shortcut / constant-time strategy on a non-sequence: the hint of the first ITERATED item is inferred')
+    if not k_ns and not any(o['status'] == 'refuted' and 'nonsequence' in o['name'] for o in rep.obls): rep.error('C20.reiterable_items (non-sequence): no single-item path')
+    outs = ex.exec_block(body, St(tuple(env.items()), pre))
     for ob in ex.obls:
         r = pr.prove(list(ob.pc), ob.goal); rep.add(f'C20.reiterable_items.{ob.kind}#{ob.name.rsplit(".", 1)[-1]}', r.status, time=r.time, backend=r.backend, where=ob.where, reason=r.reason)
     n = 0; jj = z3.Int('j_post')
@@ -174,7 +195,7 @@ def objects(tier):
     d1 = []
     for a in GRAMMAR_SCALARS[:7]:
         d1 += [f'[{a}]', f'[{a}, {a}]', f'({a},)', f'({a}, 1)', f'{{{a}}}' if a not in ('None',) or True else '', f'frozenset([{a}])', f'{{{a}: {a}}}', f'{{1: {a}, 2: {a}}}', f'deque([{a}])', f'Counter([{a}])',
-               f'defaultdict(list, {{1: {a}}})', f'OrderedDict({{1: {a}}})', f'ChainMap({{1: {a}}})', f'{{{a}: 1}}.keys()', f'{{1: {a}}}.values()', f'{{1: {a}}}.items()', f'UserSeq([{a}])', f'UserSet([{a}])', f'UserMap({{1: {a}}})', f'UserColl([{a}])']
+               f'defaultdict(list, {{1: {a}}})', f'OrderedDict({{1: {a}}})', f'ChainMap({{1: {a}}})', f'{{{a}: 1}}.keys()', f'{{1: {a}}}.values()', f'{{1: {a}}}.items()', f'UserSeq([{a}])', f'UserSet([{a}])', f'UserMap({{1: {a}}})', f'UserMap({{0: {a}}})', f'UserDict({{0: {a}}})', f'UserColl([{a}])']
     d1 += ['[]', '()', '{}', 'set()', 'frozenset()', 'deque()', 'range(3)', 'range(0)', '[1, "a"]', '(1, "a", 2.5)', '{1, "a"}', '{1: "a", "b": 2}', '[1, None]', '[[1], ["a"]]', '[[], [1]]', '{"k": [1, "a"]}', '[{"a": 1}, {"b": "c"}]',
            '([1], {"a": (1, 2)})', '[(1, "a"), (2, "b")]', '{(1, 2): [3]}', '[1, [2, [3, ["x"]]]]', 'tuple(range(30))', '[[1, 2], [3, 4]]', 'b"abc"', 'bytearray(b"x")', 'memoryview(b"x")', '{"a": 1}.items()',
            "{1: [1]}.items()", "{1: {2: 3}}.values()", 'UserSeq([UserSeq([1])])', '[UserMap({1: [1]})]', '[L0(), L2()]', '[L0, L1]', '[int, str]', '[len, print]', '(lambda: 0)', 'len', 'L0', 'int', '[list[int]]', '(List[int], 3)', '{1: Optional[int]}', '[Union[int, str]]', '[1, list[int]]',
@@ -205,7 +226,7 @@ def bounded(rep, tier):
         def __reversed__(self): return reversed(self._i)
         def index(self, x): return self._i.index(x)
         def count(self, x): return self._i.count(x)
-    NS.update(UserString=_c.UserString, DuckSeq=DuckSeq)
+    NS.update(UserString=_c.UserString, DuckSeq=DuckSeq, UserDict=_c.UserDict)
     cases = 0; fails = []
     from beartype import BeartypeConf, BeartypeStrategy
     CONF_ON = BeartypeConf(strategy=BeartypeStrategy.On)
